@@ -1789,6 +1789,16 @@ def gen_SystemPy(repo):
                         and [_norm(gridsrc, b) for b in st.body] == ["boundary_conditions={}"] for st in ini.body)
     if init is None or not none_to_empty:
         raise AnchorLost("rdgridspace.py: initial boundary conditions")
+    # ---- copy() of the classes a system is made of: body as normalised statements (deep copy of the whole object)
+    netsrc = PySrc(repo, "src/strengths/rdnetwork.py")
+
+    def copy_body(src, cls):
+        fn = src.func("copy", cls)
+        return [_norm(src, st) for st in fn.body if not (isinstance(st, ast.Expr) and isinstance(st.value, ast.Constant))]
+    L.append("/-- `copy()` bodies (normalised statements): RDSystem, RDGridSpace, RDGraphSpace, RDNetwork, Species -/")
+    for nm, src_, cls in (("systemCopyBody", rds, "RDSystem"), ("gridCopyBody", gridsrc, "RDGridSpace"), ("graphCopyBody", graphsrc, "RDGraphSpace"),
+                          ("networkCopyBody", netsrc, "RDNetwork"), ("speciesCopyBody", netsrc, "Species")):
+        L.append("def %s : List String := %s" % (nm, lean_list([lean_str(x) for x in copy_body(src_, cls)])))
     L.append("/-- boundary conditions of a grid built without the argument (`None` -> `{}` -> this dictionary) -/")
     L.append("def gridDefaultBoundary : List (String × String) := %s" %
              lean_list(["(%s, %s)" % (lean_str(a), lean_str(b)) for a, b in init]))
